@@ -31,18 +31,26 @@ theorem ensureWriter_ok {s : Store} {d : Disk} {A C : List Rec} (i : SInv s d A 
     DInv (ensureWriter s d).2.2 A ∧ (ensureWriter s d).2.2.zombies = [] ∧
     (ensureWriter s d).1.writer = some (s.writer.getD s.nextWAL) ∧ (ensureWriter s d).1.idx = s.idx ∧
     (ensureWriter s d).1.pending = s.pending ∧ (ensureWriter s d).1.repairRequired = false ∧
-    (ensureWriter s d).1.closed = s.closed ∧ (ensureWriter s d).1.sinceCleanup = s.sinceCleanup := by
+    (ensureWriter s d).1.closed = s.closed ∧ (ensureWriter s d).1.sinceCleanup = s.sinceCleanup ∧
+    (ensureWriter s d).1.nextSeq = s.nextSeq := by
   unfold ensureWriter
   cases hw : s.writer with
   | some n =>
     simp only [Option.getD_some]
     have hz := i.wrz (by simp [hw])
-    refine ⟨i, di, di, hz, ?_, ?_, ?_, ?_, ?_, ?_⟩ <;> first | trivial | rfl | exact hw | exact hr
+    refine ⟨i, di, di, hz, ?_, ?_, ?_, ?_, ?_, ?_, ?_⟩ <;> first | trivial | rfl | exact hw | exact hr
   | none =>
     simp only [Option.getD_none]
     have hclean := i.nogarb hr
     have dnew : DInv { d with files := d.files ++ [{ num := s.nextWAL }] } A := by
-      refine ⟨numsAsc_snoc di.asc (fun G hG => i.next G hG), garbageOnlyLast_snoc _ _ hclean, ?_, di.zclean, ?_, di.zlow, ?_, di.zlowAlt⟩
+      refine ⟨numsAsc_snoc di.asc (fun G hG => i.next G hG), garbageOnlyLast_snoc _ _ hclean, ?_, di.zclean, ?_, di.zlow, ?_, di.zlowAlt,
+        ?_, di.zseq⟩
+      rotate_right 1
+      · intro f hf
+        rcases List.mem_append.mp hf with h | h
+        · exact di.seq f h
+        · simp only [List.mem_singleton] at h; subst h
+          exact ⟨rfl, by simp, by simp, by simp⟩
       · intro ⟨f, hf, hg⟩
         exfalso
         rcases List.mem_append.mp hf with h | h
@@ -53,8 +61,8 @@ theorem ensureWriter_ok {s : Store} {d : Disk} {A C : List Rec} (i : SInv s d A 
       · intro w hw
         show Presents (w.getD 0) (recsOf (d.files ++ [{ num := s.nextWAL }])) A
         rw [recsOf_nil_file]; exact di.presAlt w hw
-    refine ⟨?_, dnew, dnew.synced, ?_, ?_, ?_, ?_, ?_, ?_, ?_⟩ <;> (try first | trivial | rfl | exact hr)
-    refine ⟨i.ewf, i.rwf, ?_, i.pruned, i.view, i.pend, ?_, fun _ => rfl, fun _ => hr, ?_, ?_⟩
+    refine ⟨?_, dnew, dnew.synced, ?_, ?_, ?_, ?_, ?_, ?_, ?_, ?_⟩ <;> (try first | trivial | rfl | exact hr)
+    refine ⟨i.ewf, i.rwf, ?_, i.pruned, i.view, i.pend, ?_, fun _ => rfl, fun _ => hr, ?_, ?_, ?_⟩
     · show Covers s.idx (pairsOf (d.files ++ [{ num := s.nextWAL }]))
       rw [pairsOf_nil_file]; exact i.cov
     · intro n hn
@@ -65,6 +73,11 @@ theorem ensureWriter_ok {s : Store} {d : Disk} {A C : List Rec} (i : SInv s d A 
       rcases List.mem_append.mp hF with h | h
       · have := i.next F h; omega
       · simp only [List.mem_singleton] at h; subst h; simp
+    · refine ⟨i.seqNext.1, ?_⟩
+      intro F hF q hq
+      rcases List.mem_append.mp hF with h | h
+      · exact i.seqNext.2 F h q hq
+      · simp only [List.mem_singleton] at h; subst h; simp at hq
     · intro _ F hF
       rcases List.mem_append.mp hF with h | h
       · exact hclean F h
@@ -95,24 +108,26 @@ theorem pairsOf_setGarbage (d : Disk) (n : Nat) (g : Bool) : pairsOf (d.setGarba
 
 /-- the batch appended, synced and indexed -/
 theorem commit_ok {s : Store} {d : Disk} {A C : List Rec} {n : Nat} (i : SInv s d A C) (di : DInv d A)
-    (hw : s.writer = some n) (hz : d.zombies = []) (hr : s.repairRequired = false) :
-    DInv (d.setGarbage n true) A ∧ DInv (d.appendBatch n s.pending) (A ++ C) ∧
-    SInv { s with idx := s.idx.applyRecs n s.pending, pending := [] } (d.appendBatch n s.pending) (A ++ C) [] ∧
-    (d.appendBatch n s.pending).zombies = [] := by
+    (hw : s.writer = some n) (hz : d.zombies = []) (hr : s.repairRequired = false) (hne : s.pending ≠ []) :
+    DInv (d.setGarbage n true) A ∧ DInv (d.appendBatch n s.pending s.nextSeq) (A ++ C) ∧
+    SInv { s with idx := s.idx.applyRecs n s.pending, pending := [], nextSeq := s.nextSeq + s.pending.length }
+      (d.appendBatch n s.pending s.nextSeq) (A ++ C) [] ∧
+    (d.appendBatch n s.pending s.nextSeq).zombies = [] := by
   obtain ⟨pre, F, hf, hn⟩ := i.wr n hw
   subst hn
   have hclean := i.nogarb hr
   have hcpre : ∀ G ∈ pre, G.garbage = false := fun G hG => hclean G (by rw [hf]; exact List.mem_append_left _ hG)
   have hcall : ∀ G ∈ pre ++ [F], G.garbage = false := fun G hG => hclean G (by rw [hf]; exact hG)
-  obtain ⟨dfull, hfiles⟩ := di.full (B := s.pending) pre F hf hcall i.pend
+  obtain ⟨dfull, hfiles⟩ := di.full (B := s.pending) pre F s.nextSeq hf hcall i.pend hne i.seqNext.1
+    (fun q hq => i.seqNext.2 F (by rw [hf]; simp) q hq)
   refine ⟨di.torn pre F hf hcpre hz, dfull, ?_, hz⟩
   obtain ⟨cp, cv⟩ := commit_idx (B := s.pending) (C := C) F.num i.ewf i.pruned i.view i.pend
-  refine ⟨applyRecs_EWF _ _ _ i.ewf, applyRecs_RWF _ _ _ i.rwf, ?_, cp, cv, Equiv.rfl' _ _, ?_, fun _ => hz, fun _ => hr, ?_, ?_⟩
+  refine ⟨applyRecs_EWF _ _ _ i.ewf, applyRecs_RWF _ _ _ i.rwf, ?_, cp, cv, Equiv.rfl' _ _, ?_, fun _ => hz, fun _ => hr, ?_, ?_, ?_⟩
   · have := i.cov.steps F.num s.pending
-    have hp : pairsOf (d.appendBatch F.num s.pending).files = pairsOf d.files ++ s.pending.map (F.num, ·) := by
+    have hp : pairsOf (d.appendBatch F.num s.pending s.nextSeq).files = pairsOf d.files ++ s.pending.map (F.num, ·) := by
       rw [hfiles, hf, pairsOf_snoc, pairsOf_snoc]
       simp [recsOfFile, List.append_assoc]
-    show Covers _ (pairsOf (d.appendBatch F.num s.pending).files)
+    show Covers _ (pairsOf (d.appendBatch F.num s.pending s.nextSeq).files)
     rw [hp]; exact this
   · intro n' hn'
     exact ⟨pre, _, hfiles, by simpa [hw] using hn'⟩
@@ -124,6 +139,19 @@ theorem commit_ok {s : Store} {d : Disk} {A C : List Rec} {n : Nat} (i : SInv s 
     · simp only [List.mem_singleton] at h
       subst h
       exact i.next F (by rw [hf]; simp)
+  · have hlen : 0 < s.pending.length := List.length_pos_iff.mpr hne
+    refine ⟨by show 0 < s.nextSeq + s.pending.length; omega, ?_⟩
+    intro G hG q hq
+    show q < s.nextSeq + s.pending.length
+    rw [hfiles] at hG
+    rcases List.mem_append.mp hG with h | h
+    · have := i.seqNext.2 G (by rw [hf]; exact List.mem_append_left _ h) q hq; omega
+    · simp only [List.mem_singleton] at h
+      subst h
+      simp only [List.mem_append, List.mem_singleton] at hq
+      rcases hq with h1 | rfl
+      · have := i.seqNext.2 F (by rw [hf]; simp) q h1; omega
+      · omega
   · intro _ G hG
     rw [hfiles] at hG
     rcases List.mem_append.mp hG with h | h
@@ -135,13 +163,13 @@ theorem commit_ok {s : Store} {d : Disk} {A C : List Rec} {n : Nat} (i : SInv s 
 /-- `SInv` does not mention the cleanup counter -/
 theorem SInv.of_since {s : Store} {d : Disk} {A C : List Rec} (i : SInv s d A C) (k : Nat) :
     SInv { s with sinceCleanup := k } d A C :=
-  ⟨i.ewf, i.rwf, i.cov, i.pruned, i.view, i.pend, i.wr, i.wrz, i.wrr, i.next, i.nogarb⟩
+  ⟨i.ewf, i.rwf, i.cov, i.pruned, i.view, i.pend, i.wr, i.wrz, i.wrr, i.next, i.seqNext, i.nogarb⟩
 
 /-- `SInv` only looks at the logs and the pending unlinks of the directory -/
 theorem SInv.of_disk {s : Store} {d d' : Disk} {A C : List Rec} (i : SInv s d A C) (hf : d'.files = d.files)
     (hz : d'.zombies = d.zombies) : SInv s d' A C :=
   ⟨i.ewf, i.rwf, by rw [hf]; exact i.cov, i.pruned, i.view, i.pend, by rw [hf]; exact i.wr, by rw [hz]; exact i.wrz,
-    i.wrr, by rw [hf]; exact i.next, by rw [hf]; exact i.nogarb⟩
+    i.wrr, by rw [hf]; exact i.next, by rw [hf]; exact i.seqNext, by rw [hf]; exact i.nogarb⟩
 
 /-- the amortised cleanup: watermark, rotation, removal of the obsolete logs — with any of
 its failures injected -/
@@ -157,14 +185,14 @@ theorem cleanup_ok {s : Store} {d : Disk} {A : List Rec} {n : Nat} (i : SInv s d
   have hcpre : ∀ G ∈ pre, G.garbage = false := fun G hG => hclean G (by rw [hf]; exact List.mem_append_left _ hG)
   have hle := di.wm_le
   have hp := i.pruned
-  have halt : ∀ w', some d.wm = some w' → Presents (w'.getD 0) (recsOf d.files) A := by
+  have halt : ∀ w' ∈ d.wm :: d.wmAlt, Presents (w'.getD 0) (recsOf d.files) A := by
     intro w' hw'
-    simp only [Option.some.injEq] at hw'
-    subst hw'
-    exact di.pres
-  have dren : ∀ t, DInv { d with wm := some s.idx.pruned, tmp := t, wmAlt := some d.wm } A :=
+    rcases List.mem_cons.mp hw' with rfl | h
+    · exact di.pres
+    · exact di.presAlt w' h
+  have dren : ∀ t, DInv { d with wm := some s.idx.pruned, tmp := t, wmAlt := d.wm :: d.wmAlt } A :=
     fun t => di.setWm _ t _ (by rw [hp]; exact hle) (by rw [hp]; exact Nat.le_refl _) hz halt
-  have dwm : DInv { d with wm := some s.idx.pruned, tmp := false, zombies := [], wmAlt := none } A := (dren false).synced
+  have dwm : DInv { d with wm := some s.idx.pruned, tmp := false, zombies := [], wmAlt := [] } A := (dren false).synced
   have dtrail := dwm.torn pre F hf hcpre rfl
   unfold cleanup
   simp only
@@ -212,15 +240,16 @@ theorem cleanup_ok {s : Store} {d : Disk} {A : List Rec} {n : Nat} (i : SInv s d
       · exact ⟨rfl, dwm⟩
       · exact ⟨rfl, dgc⟩
     · have base : SInv { s with writer := none, known := s.known.filter (fun k => !decide (k < ({ s with writer := none } : Store).minLive)) }
-          { d with wm := some s.idx.pruned, tmp := false, wmAlt := none,
+          { d with wm := some s.idx.pruned, tmp := false, wmAlt := [],
                    files := d.files.filter (fun f => !(rmFiles.map (fun f => f.num)).contains f.num),
                    zombies := d.files.filter (fun f => (rmFiles.map (fun f => f.num)).contains f.num) } A [] := by
-        refine ⟨i.ewf, i.rwf, ?_, i.pruned, i.view, i.pend, ?_, ?_, ?_, ?_, ?_⟩
+        refine ⟨i.ewf, i.rwf, ?_, i.pruned, i.view, i.pend, ?_, ?_, ?_, ?_, ?_, ?_⟩
         · exact i.cov.subset (pairsOf_mono (fun G hG => (List.mem_filter.mp hG).1))
         · intro n' hn'; cases hn'
         · intro hn'; exact absurd rfl hn'
         · intro hn'; exact absurd rfl hn'
         · intro G hG; exact i.next G (List.mem_filter.mp hG).1
+        · exact ⟨i.seqNext.1, fun G hG q hq => i.seqNext.2 G (List.mem_filter.mp hG).1 q hq⟩
         · intro _ G hG; exact hclean G (List.mem_filter.mp hG).1
       split
       · exact base
@@ -247,7 +276,7 @@ structure FlushOK (s : Store) (A C : List Rec) (r : OpRes) : Prop where
   closed : r.st.closed = s.closed
 
 theorem DInv.ack {d : Disk} {A C : List Rec} (i : DInv d A) (e : Equiv (maxPrune A) [] C) : DInv d (A ++ C) := by
-  refine ⟨i.asc, i.garb, i.zgarb, i.zclean, ?_, i.zlow, ?_, i.zlowAlt⟩
+  refine ⟨i.asc, i.garb, i.zgarb, i.zclean, ?_, i.zlow, ?_, i.zlowAlt, i.seq, i.zseq⟩
   · have := i.pres.append e
     simpa using this
   · intro w hw
@@ -272,7 +301,7 @@ theorem flush_ok {s : Store} {d : Disk} {A C : List Rec} (i : SInv s d A C) (di 
     · simpa [Outcome.committed] using di.ack e
     · intro _
       simp only [Outcome.committed, ↓reduceIte]
-      refine ⟨i.ewf, i.rwf, i.cov, cp, cv, ?_, i.wr, i.wrz, i.wrr, i.next, i.nogarb⟩
+      refine ⟨i.ewf, i.rwf, i.cov, cp, cv, ?_, i.wr, i.wrz, i.wrr, i.next, i.seqNext, i.nogarb⟩
       rw [hnil]; exact Equiv.rfl' _ _
     · intro F hF; cases hF
   · simp only [hpe, Bool.false_eq_true, ↓reduceIte]
@@ -300,13 +329,14 @@ theorem flush_ok {s : Store} {d : Disk} {A C : List Rec} (i : SInv s d A C) (di 
         · intro _; simpa [Outcome.committed] using i
         · intro F hF; cases hF
       simp only [hcr, Bool.false_eq_true, ↓reduceIte]
-      obtain ⟨i1, dnew, d1, hz1, hw1, hidx, hpend, hr1, hcl1, hsc1⟩ := ensureWriter_ok i di hr
+      obtain ⟨i1, dnew, d1, hz1, hw1, hidx, hpend, hr1, hcl1, hsc1, hns1⟩ := ensureWriter_ok i di hr
+      have hpne : s.pending ≠ [] := fun c => hpe (by simp [c])
       generalize (ensureWriter s d).1 = s1 at *
       generalize (ensureWriter s d).2.1 = dNew at *
       generalize (ensureWriter s d).2.2 = d1' at *
       generalize s.writer.getD s.nextWAL = n at *
-      obtain ⟨dtorn, dfull, s2inv, hzf⟩ := commit_ok i1 d1 hw1 hz1 hr1
-      rw [hpend] at dfull s2inv hzf
+      obtain ⟨dtorn, dfull, s2inv, hzf⟩ := commit_ok i1 d1 hw1 hz1 hr1 (by rw [hpend]; exact hpne)
+      rw [hpend, hns1] at dfull s2inv hzf
       have bs1 : ∀ b ∈ [(d, false), (dNew, false), (d1', false)], DInv b.1 (if b.2 = true then A ++ C else A) := by
         intro b hb
         simp only [List.mem_cons, List.not_mem_nil, or_false] at hb
@@ -329,7 +359,7 @@ theorem flush_ok {s : Store} {d : Disk} {A C : List Rec} (i : SInv s d A C) (di 
         · intro _
           simp only [Outcome.committed, Bool.false_eq_true, ↓reduceIte]
           exact ⟨i1.ewf, i1.rwf, i1.cov, i1.pruned, i1.view, i1.pend, fun n' hn' => (by cases hn'),
-            fun hn' => absurd rfl hn', fun hn' => absurd rfl hn', i1.next, fun _ => i1.nogarb hr1⟩
+            fun hn' => absurd rfl hn', fun hn' => absurd rfl hn', i1.next, i1.seqNext, fun _ => i1.nogarb hr1⟩
         · intro F hF; cases hF
       simp only [hap, ↓reduceIte]
       by_cases hnr : ft = Fault.appendNoRepair
@@ -345,7 +375,15 @@ theorem flush_ok {s : Store} {d : Disk} {A C : List Rec} (i : SInv s d A C) (di 
         · intro _
           simp only [Outcome.committed, Bool.false_eq_true, ↓reduceIte]
           refine ⟨i1.ewf, i1.rwf, ?_, i1.pruned, i1.view, i1.pend, fun n' hn' => (by cases hn'),
-            fun hn' => absurd rfl hn', fun hn' => absurd rfl hn', ?_, fun hh => (by cases hh)⟩
+            fun hn' => absurd rfl hn', fun hn' => absurd rfl hn', ?_, ?_, fun hh => (by cases hh)⟩
+          rotate_right 1
+          · refine ⟨i1.seqNext.1, ?_⟩
+            intro F hF q hq
+            unfold Disk.setGarbage at hF
+            simp only [List.mem_map] at hF
+            obtain ⟨G, hG, rfl⟩ := hF
+            have := i1.seqNext.2 G hG
+            split at hq <;> exact this q hq
           · rw [pairsOf_setGarbage]; exact i1.cov
           · intro F hF
             unfold Disk.setGarbage at hF
@@ -356,7 +394,7 @@ theorem flush_ok {s : Store} {d : Disk} {A C : List Rec} (i : SInv s d A C) (di 
         · intro F hF; cases hF
       simp only [hnr, ↓reduceIte]
       -- the batch is appended, synced and indexed
-      have bs2 : ∀ b ∈ [(d, false), (dNew, false), (d1', false)] ++ [(d1'.setGarbage n true, false), (d1'.appendBatch n s.pending, true)],
+      have bs2 : ∀ b ∈ [(d, false), (dNew, false), (d1', false)] ++ [(d1'.setGarbage n true, false), (d1'.appendBatch n s.pending s.nextSeq, true)],
           DInv b.1 (if b.2 = true then A ++ C else A) := by
         intro b hb
         rcases List.mem_append.mp hb with h | h
